@@ -6,10 +6,12 @@ use crate::search::*;
 use serde_json::json;
 
 pub mod c01;
+pub mod c04;
 
 pub fn run(prop: &str, tier: &str) -> ! {
 	match prop {
 		"C01" => c01::run(tier),
+		"C04" => c04::run(tier),
 		_ => machinery_error(&format!("unknown property {}", prop)),
 	}
 }
